@@ -153,7 +153,7 @@ def ss_jobs():
     FR = ['__CPROVER_object_whole(self)', '__CPROVER_object_whole(self->storage_)']
     SELF = SS + '_op_add_assign__const_StringStream__char_r'
     out.append(ss_job('self-append', 'operator+=(const Qentem::StringStream<char> &)', SELF,
-                      dict(harness_alias={'stream': 'self'}, obj_buffers=[('o_self.storage_', 'o_self.capacity_', 'char')], requires=W + ['stream == self', OLDREQ, 'self->length_ <= 0x1000000u', 'g_c == (g_k < self->length_ ? g_k : g_k - self->length_)'],
+                      dict(harness_alias={'stream': 'self'}, obj_buffers=[('o_self.storage_', 'o_self.capacity_', 'char', 'o_self.length_')], requires=W + ['stream == self', OLDREQ, 'self->length_ <= 0x1000000u', 'g_c == (g_k < self->length_ ? g_k : g_k - self->length_)'],
                            ensures=wf_ens() + ['self->length_ == 2 * %s' % O_LEN, KEEP,
                                                '(g_k >= %s && g_k < self->length_) ==> self->storage_[g_k] == self->storage_[g_k - %s]' % (O_LEN, O_LEN)],
                            assigns=FR, frees=['self->storage_']),
